@@ -176,12 +176,12 @@ func TestC30(t *testing.T) {
 		// Compare against the text without its trailing trivia, and report only
 		// what the file clause has not already reported for this input.
 		extra := 0
-		for _, d := range diffClasses(text[:view.LastSigEnd], concat[:min(len(concat), lastSigEnd(concat))], false, false) {
+		for _, d := range diffClassesIgnoringTrail(text, concat) {
 			if fileClasses[d.Class] {
 				continue
 			}
 			extra++
-			r.Violation("roundtrip.decls."+classCategory(d.Class), d.Class, c.ID, wit(map[string]any{"detail": d.Detail, "first_difference": firstDiffContext(text[:view.LastSigEnd], concat), "concat": witnessText(concat)}))
+			r.Violation("roundtrip.decls."+classCategory(d.Class), d.Class, c.ID, wit(map[string]any{"detail": d.Detail, "first_difference": firstDiffContext(text, concat), "concat": witnessText(concat)}))
 		}
 		if extra == 0 {
 			r.Class("decl-clause:differs-only-as-the-file-clause-does")
@@ -194,14 +194,4 @@ func TestC30(t *testing.T) {
 			}
 		}
 	})
-}
-
-// lastSigEnd returns the end offset of the last significant token of s (len(s)
-// when the lexer cannot tile it).
-func lastSigEnd(s string) int {
-	v, ok := viewOf(s)
-	if !ok {
-		return len(s)
-	}
-	return v.LastSigEnd
 }
